@@ -116,7 +116,7 @@ class Sim:
     """One world + one output directory. Used as a context manager."""
 
     def __init__(self, scn, schedule=(), lock_mode="classic", file_yields=False, faults=None, snapshots=False,
-                 observe_results=False, max_steps=8000, observe_rows=False, exotic=()):
+                 observe_results=False, max_steps=8000, observe_rows=False, exotic=(), shared_node_hosts=0):
         self.scn = scn
         self.base = tempfile.mkdtemp(prefix="case_", dir=scratch_root())
         self.root = os.path.join(self.base, "w")
@@ -152,6 +152,7 @@ class Sim:
             "JADE_REGISTRY": os.environ["JADE_REGISTRY"],
         }
         self.w.observe_rows = observe_rows
+        self.w.shared_node_hosts = shared_node_hosts
         self.w.exotic_plan = sorted((dict(x) for x in exotic), key=lambda x: x["at"])
         if isinstance(schedule, dict):
             self.w.schedule = list(schedule.get("picks", []))
